@@ -18,6 +18,7 @@ import (
 	"sync"
 
 	"github.com/postalsys/muti-metroo/internal/crypto"
+	"github.com/postalsys/muti-metroo/verifharness/cryptomesh"
 	"github.com/postalsys/muti-metroo/verifharness/vh"
 )
 
@@ -54,10 +55,11 @@ func (u *U64) UnmarshalJSON(b []byte) error {
 }
 
 type Event struct {
-	Kind  string     `json:"kind"` // "enc" | "deliver"
-	Side  string     `json:"side"` // acting endpoint: sender for enc, receiver for deliver ("I" | "R")
-	PLen  int        `json:"plen,omitempty"`
-	Frame *FrameSpec `json:"frame,omitempty"`
+	Kind   string     `json:"kind"` // "enc" | "deliver" | "skip" (sender's counter moves forward to SkipTo: frames lost in between)
+	SkipTo *U64       `json:"skip_to,omitempty"`
+	Side   string     `json:"side"` // acting endpoint: sender for enc, receiver for deliver ("I" | "R")
+	PLen   int        `json:"plen,omitempty"`
+	Frame  *FrameSpec `json:"frame,omitempty"`
 }
 
 type Schedule struct {
@@ -82,6 +84,7 @@ type emitted struct {
 type obs struct {
 	// enc: nonce; deliver: header, body class, length
 	isEnc    bool
+	isSkip   bool
 	side     string
 	nonceHex string // enc
 	pid      int
@@ -210,6 +213,14 @@ func run(c *vh.Ctx, s *Schedule, monitor bool) runResult {
 	for ei, ev := range s.Events {
 		sk := key[ev.Side]
 		switch ev.Kind {
+		case "skip":
+			sn, rn := sk.VerifCounters()
+			to := sn
+			if ev.SkipTo != nil && uint64(*ev.SkipTo) > sn {
+				to = uint64(*ev.SkipTo)
+			}
+			sk.VerifSetCounters(to, rn)
+			rr.obs = append(rr.obs, obs{isSkip: true, side: ev.Side, outcome: "skip", send: to, recv: rn})
 		case "enc":
 			pid := len(em)
 			pt := plaintextFor(pid, ev.PLen)
@@ -321,6 +332,8 @@ func preCtr(nonceHex string) string {
 
 func coqOutcome(o obs) string {
 	switch o.outcome {
+	case "skip":
+		return "OSkip"
 	case "enc":
 		return "(OEnc " + preCtr(o.nonceHex) + ")"
 	case "accept":
@@ -345,7 +358,9 @@ func coqOutcome(o obs) string {
 func coqCase(s *Schedule, rr runResult) string {
 	var evs, outs []string
 	for _, o := range rr.obs {
-		if o.isEnc {
+		if o.isSkip {
+			evs = append(evs, fmt.Sprintf("XSkip %s %d", coqSide(o.side), o.send))
+		} else if o.isEnc {
 			evs = append(evs, fmt.Sprintf("XEnc %s %d %d", coqSide(o.side), o.pid, o.flen-28))
 		} else {
 			body := "XGarbage"
@@ -387,6 +402,10 @@ func fixedWitnesses() []*Schedule {
 			{Kind: "deliver", Side: "R", Frame: &FrameSpec{Base: 1, FlipOff: 14, FlipBit: 0, Trunc: -1}}, gen("R", 0), gen("R", 1)}},
 		{Name: "replay-and-reorder", Events: []Event{enc("I", 3), enc("I", 3), enc("I", 3), gen("R", 1), gen("R", 0), gen("R", 1), gen("R", 2), gen("R", 2)}},
 		{Name: "genuine-last-counter", ISend: U64(maxU64 - 1), RRecv: U64(maxU64 - 1), Events: []Event{enc("I", 1), enc("I", 1), gen("R", 0), gen("R", 1), gen("R", 0), gen("R", 1)}},
+		{Name: "witness-old-frame-after-2^63-gap", Events: []Event{enc("I", 2), gen("R", 0),
+			{Kind: "skip", Side: "I", SkipTo: u64p(1 << 62)}, enc("I", 2), gen("R", 1),
+			{Kind: "skip", Side: "I", SkipTo: u64p(1<<63 + 10)}, enc("I", 2), gen("R", 2), gen("R", 0), gen("R", 1),
+			{Kind: "skip", Side: "I", SkipTo: u64p(maxU64 - 1)}, enc("I", 2), gen("R", 3), gen("R", 0), gen("R", 1), gen("R", 2)}},
 		{Name: "short-frames", Events: []Event{enc("I", 0), {Kind: "deliver", Side: "R", Frame: &FrameSpec{Base: 0, FlipOff: -1, Trunc: 27}},
 			{Kind: "deliver", Side: "R", Frame: &FrameSpec{Base: 0, FlipOff: -1, Trunc: 11}},
 			{Kind: "deliver", Side: "R", Frame: &FrameSpec{Base: 0, FlipOff: -1, Trunc: 0}}, gen("R", 0)}},
@@ -411,6 +430,7 @@ func genSchedule(r *vh.Rand, n int) *Schedule {
 	// (the property's "fewer than 2^64 sends per side")
 	room := map[string]uint64{"I": maxU64 - uint64(s.ISend), "R": maxU64 - uint64(s.RSend)}
 	used := map[string]uint64{"I": 0, "R": 0}
+	skipped := map[string]uint64{"I": 0, "R": 0}
 	var emSide []string
 	next := map[string]int{"I": 0, "R": 0} // next emitted index not yet delivered in order, per receiver
 	sides := []string{"I", "R"}
@@ -420,6 +440,23 @@ func genSchedule(r *vh.Rand, n int) *Schedule {
 		side := sides[r.Intn(2)]
 		if len(emSide) == 0 && k >= 25 && k < 85 {
 			k = 0
+		}
+		if k < 25 && r.Chance(1, 12) && used[side] <= room[side] {
+			// the sender jumps ahead (frames sent and lost): gaps of 2^63 and more
+			cur := uint64(0)
+			if side == "I" {
+				cur = uint64(s.ISend)
+			} else {
+				cur = uint64(s.RSend)
+			}
+			cur += used[side] + skipped[side]
+			jump := r.PickU64(1, 1<<32, 1<<62, 1<<62+1, 1<<63-1, 1<<63, 1<<63+1)
+			if cur+jump > cur && cur+jump < maxU64-64 {
+				skipped[side] += jump
+				room[side] -= jump
+				s.Events = append(s.Events, Event{Kind: "skip", Side: side, SkipTo: u64p(cur + jump)})
+			}
+			continue
 		}
 		switch {
 		case k < 25: // encrypt
@@ -547,6 +584,10 @@ func concurrentDeliveries(c *vh.Ctx) {
 func main() {
 	c := vh.Start("C01")
 	defer c.Finish()
+	if cryptomesh.IsChild() {
+		icmpAckReplay(c)
+		return
+	}
 	c.Res.Rule = "case = one adversarial schedule (encrypts on both ends + deliveries of genuine/reordered/duplicated/reflected/bit-flipped/re-numbered/truncated/forged frames, start counters anywhere) run on a real crypto.SessionKey pair; " +
 		"per event the outcome class, accepted frame and (send,recv) counters are compared with the model; non-trivial = at least one accept and one reject; distinct = distinct symbolic schedules"
 
@@ -585,6 +626,8 @@ func main() {
 		switch probe.Kind {
 		case "closed-endpoint":
 			closedEndpoints(c)
+		case "replayed-open", "udp-open-race":
+			replayedOpens(c, vh.NewRand(int64(c.Seed)+5))
 		case "icmp-ack-replay":
 			icmpAckReplay(c)
 		case "concurrent-duplicate-delivery":
@@ -613,7 +656,8 @@ func main() {
 	if c.Replay == "" {
 		concurrentDeliveries(c)
 		closedEndpoints(c)
-		icmpAckReplay(c)
+		cryptomesh.Run(c, func() { icmpAckReplay(c) })
+		replayedOpens(c, vh.NewRand(int64(uint64(c.Seed)*0x9E3779B97F4A7C15+77)))
 	}
 
 	var sb strings.Builder
